@@ -80,6 +80,8 @@ def make_cases(ctx):
             for kind in ops.OPS[name]['kinds'][:2]:
                 k += 1
                 cases.append({'op': name, 'kind': kind, 'm': 3, 'no_prss': k % 2 == 0, 'seed': rng.randrange(1 << 30), 'force': var})
+                if name == 'f256_arith':   # extension field with threshold 2: PRSS zero sharings of degree 4
+                    cases.append({'op': name, 'kind': kind, 'm': 5, 'no_prss': False, 'seed': rng.randrange(1 << 30), 'force': var})
     # 2. random extra cases, weighted towards m = 3
     names = sorted(ops.OPS)
     for _ in range(ctx.scale(220, 6000)):
